@@ -247,8 +247,9 @@ def run_harness(ctx, binary, args=(), cases=None, timeout=600, env=None, infile=
                 continue
             out.append(rec)
     if r.returncode != 0:
-        raise InfraError("harness %s exited %d:\n%s\n%s" % (
-            os.path.basename(binary), r.returncode, r.stdout[-2000:], r.stderr[-4000:]))
+        raise InfraError("harness %s exited %d:\n%s\n%s%s" % (
+            os.path.basename(binary), r.returncode, r.stdout[-2000:],
+            (r.stderr[:700] + "\n[...]\n") if len(r.stderr) > 4700 else "", r.stderr[-4000:]))
     return out
 
 
